@@ -498,3 +498,53 @@ func (o originSet) intersects(b originSet) bool {
 }
 
 func (o originSet) unknown() bool { return o[unknownOrigin] }
+
+// loadSets: for every module function the classes of memory cells it (or a module function it calls) may read.
+func (p *Program) loadSets() map[*ssa.Function]map[string]bool {
+	if p.loadMemo != nil {
+		return p.loadMemo
+	}
+	direct := map[*ssa.Function]map[string]bool{}
+	callees := map[*ssa.Function][]*ssa.Function{}
+	for _, fn := range p.ModFns {
+		ms := map[string]bool{}
+		for _, b := range fn.Blocks {
+			for _, in := range b.Instrs {
+				switch x := in.(type) {
+				case *ssa.UnOp:
+					if x.Op == token.MUL {
+						if _, isAlloc := addrRoot(x.X).(*ssa.Alloc); isAlloc {
+							continue
+						}
+						ms[storeCell(x.X)] = true
+					}
+				case ssa.CallInstruction:
+					if _, isB := x.Common().Value.(*ssa.Builtin); isB {
+						continue
+					}
+					for _, cal := range p.Callees(x) {
+						if p.fnIndex[cal] {
+							callees[fn] = append(callees[fn], cal)
+						}
+					}
+				}
+			}
+		}
+		direct[fn] = ms
+	}
+	for changed := true; changed; {
+		changed = false
+		for fn, cs := range callees {
+			for _, cal := range cs {
+				for k := range direct[cal] {
+					if !direct[fn][k] {
+						direct[fn][k] = true
+						changed = true
+					}
+				}
+			}
+		}
+	}
+	p.loadMemo = direct
+	return direct
+}
